@@ -34,6 +34,7 @@ CONSTANTS
   Large = %(large)s
   NV = %(nv)d
   NodeCap = %(nodecap)d
+  PairK = %(pairk)d
   MaxMut = %(maxmut)d
   GenMode = "print"
 %(invs)s
@@ -109,8 +110,8 @@ def specials():
 # ---------------------------------------------------------------------------------------------- M + G
 def params(ctx):
     if ctx.quick:
-        return dict(items_large=False, nv=3, nodecap=8, seeds_k=3, seed_nodes=8, rnd=10, items_sample=6000)
-    return dict(items_large=True, nv=7, nodecap=1000, seeds_k=10, seed_nodes=30, rnd=40, items_sample=150000)
+        return dict(items_large=False, nv=3, nodecap=8, seeds_k=3, seed_nodes=8, rnd=10, items_sample=4000, pairk=1)
+    return dict(items_large=True, nv=7, nodecap=1000, seeds_k=10, seed_nodes=30, rnd=40, items_sample=150000, pairk=4)
 
 
 def printed_cases(res):
@@ -132,9 +133,9 @@ def generate(ctx):
     nw = len(behs)
     seedfile = {"seeds.ndjson": DUMMY_SEED}
     # M/G: the specification against itself, small scopes
-    mi = ctx.tlc_must("Rlp", CFG % dict(dev=DEVIATIONS, scope="items", large="TRUE" if p["items_large"] else "FALSE", nv=1, nodecap=1, maxmut=0, invs=INV_ITEMS),
+    mi = ctx.tlc_must("Rlp", CFG % dict(dev=DEVIATIONS, scope="items", large="TRUE" if p["items_large"] else "FALSE", nv=1, nodecap=1, pairk=0, maxmut=0, invs=INV_ITEMS),
                       name="M_items", files=seedfile, timeout=3000, xss="512m")
-    mb = ctx.tlc_must("Rlp", CFG % dict(dev=DEVIATIONS, scope="bytes", large="TRUE", nv=1, nodecap=1, maxmut=0, invs=INV_BYTES),
+    mb = ctx.tlc_must("Rlp", CFG % dict(dev=DEVIATIONS, scope="bytes", large="TRUE", nv=1, nodecap=1, pairk=0, maxmut=0, invs=INV_BYTES),
                       name="M_bytes", files=seedfile, timeout=1500, xss="512m")
     for m in (mi, mb):
         if m.violated:
@@ -155,7 +156,7 @@ def generate(ctx):
         raise vlib.Undecided("the driver produced no seeds")
     seedtext = "".join(json.dumps({"ty": s["ty"], "k": s["k"], "b": s["b"], "nodes": s["nodes"]}, separators=(",", ":")) + "\n" for s in seeds)
     # M/G: schemas, samples, mutations (typed samples and real seeds)
-    mt = ctx.tlc_must("Rlp", CFG % dict(dev=DEVIATIONS, scope="all", large="FALSE", nv=p["nv"], nodecap=p["nodecap"], maxmut=1, invs=INV_TYPED),
+    mt = ctx.tlc_must("Rlp", CFG % dict(dev=DEVIATIONS, scope="all", large="FALSE", nv=p["nv"], nodecap=p["nodecap"], pairk=p["pairk"], maxmut=1, invs=INV_TYPED),
                       name="MG_typed", files={"seeds.ndjson": seedtext}, timeout=3000, xss="512m", coverage=not ctx.quick)
     if mt.violated:
         raise vlib.Undecided("specification self-check failed (%s in %s)" % (mt.violated, mt.dir))
@@ -281,7 +282,7 @@ def selftest(ctx, trace):
 def run(ctx):
     ctx.cov["rule"] = ("cases = stored witnesses + design-level counterexamples + every byte string of length <= 4 over the boundary alphabet + "
                        "a seeded sample (quick 6 000, thorough 150 000) of the items with <= 3 leaves (all of them are checked in M) + per type: boundary samples and seeded real objects with "
-                       "every spec-defined mutation at the selected nodes + driver-side random flips; non-trivial = hostile or mutated input "
+                       "every spec-defined mutation at the selected nodes, the pairwise boundary-value mutation of every small struct + driver-side random flips; non-trivial = hostile or mutated input "
                        "(not a verbatim encoding); distinct by (type, bytes)")
     ctx.assumptions += ["inputs below 16 MiB (size-of-size <= 3 bytes)",
                         "the packet structs of you/protocol.go are mirrored in the harness (package you cannot be linked: quic-go panics in init); "
